@@ -52,16 +52,53 @@ class Result:
         self.obligations.append(dict(name=name, status=status, backend=backend, time_s=dt, **kw))
 
 
+_skc = [0]
+
+
+def _sk_counter():
+    _skc[0] += 1
+    return _skc[0]
+
+
 def discharge(pc, goal, timeout_ms=10000):
     """valid(pc => goal)?  returns (status, backend, seconds, model|None)"""
     t0 = time.time()
     if goal is True:
         return "discharged", "trivial", 0.0, None
+    if is_sym(goal) and z3.is_and(goal):
+        # conjunctive goals are discharged conjunct by conjunct (smaller quantified queries)
+        tot, worst, bks = 0.0, None, []
+        for ch in goal.children():
+            st, bk, dt, model = discharge(pc, ch, timeout_ms)
+            tot += dt
+            bks.append(bk)
+            if st != "discharged":
+                return st, bk, tot, model
+        return "discharged", sorted(set(bks))[-1], tot, None
+    if is_sym(goal):
+        for c in pc:
+            if goal.eq(c):
+                return "discharged", "syntactic (the goal is an assumption of the path)", time.time() - t0, None
+        if z3.is_quantifier(goal) and goal.is_forall():
+            # forall x. L(x) == R(x)  is proved as two inclusions, each with x skolemised by hand
+            body = goal.body()
+            if z3.is_eq(body) and z3.is_bool(body.arg(0)) and goal.num_vars() >= 1:
+                consts = [z3.Const(f"sk!{goal.var_name(i)}!{_sk_counter()}", goal.var_sort(i)) for i in range(goal.num_vars())]
+                inst = z3.substitute_vars(body, *reversed(consts))
+                l, r = inst.arg(0), inst.arg(1)
+                tot, bks = 0.0, []
+                for a, b in ((l, r), (r, l)):
+                    st, bk, dt, model = discharge(list(pc) + [a], b, timeout_ms)
+                    tot += dt
+                    bks.append(bk)
+                    if st != "discharged":
+                        return st, bk, tot, model
+                return "discharged", "+".join(sorted(set(bks))), tot, None
     s = z3.Solver()
     s.set("timeout", timeout_ms)
     for c in pc:
         s.add(c)
-    s.add(z3.Not(goal) if goal is not False else z3.BoolVal(True))
+    s.add(z3.Not(goal) if not isinstance(goal, bool) else z3.BoolVal(not goal))
     r = s.check()
     dt = time.time() - t0
     if r == z3.unsat:
@@ -135,10 +172,10 @@ def verify_function(eng, qualname, contract, make_args, max_paths=4000):
                 if outcome[0] == "raise":
                     e = outcome[1]
                     if e.implicit or e.cls_name not in raises:
-                        # must be infeasible; the path was reached, so it is feasible: obligation fails
-                        m = path.model()
-                        res.add(f"{qualname} [{tag}] no {e.cls_name}" + (f" ({e.info})" if e.info else ""), "failed",
-                                "z3-5.1(api)", 0.0, model=model_to_dict(m), kind="implicit-exception" if e.implicit else "undocumented-exception",
+                        # must be infeasible: the obligation is  pc => False  (under the full path condition)
+                        st, bk, dt, model = discharge(path.pc, False)
+                        res.add(f"{qualname} [{tag}] no {e.cls_name}" + (f" ({e.info})" if e.info else ""), st,
+                                bk, dt, model=model_to_dict(model), kind="implicit-exception" if e.implicit else "undocumented-exception",
                                 fork=tag)
                         continue
                     res.covers[e.cls_name] += 1
